@@ -4,7 +4,6 @@ import (
 	"encoding/base64"
 	"flag"
 	"fmt"
-	bm "github.com/microcosm-cc/bluemonday"
 	"math/rand"
 	"os"
 	"time"
@@ -60,7 +59,16 @@ func cmdRecord(args []string) int {
 	nontrivial := map[string]bool{}
 	index := []CallIndex{}
 	for s := 0; s < *sessions; s++ {
-		var permissive *bm.Policy
+		// a permissive policy sees every input of every session just before the policy under test does: whatever the library
+		// remembers across policies (a verdict cache keyed by value, say) is primed with the permissive verdict
+		perm := Recipe{{M: "UGCPolicy"}, {M: "AllowURLSchemesMatching", Pat: "^.*$"}, {M: "AllowRelativeURLs", B: true}, {M: "AllowDataURIImages"},
+			{M: "AllowAttrs", Attrs: []string{"href", "src", "cite", "style", "onclick", "id", "class", "rel", "target", "title", "alt", "width", "dir", "lang", "type", "value", "name", "sandbox", "crossorigin"}, Scope: "glob"},
+			{M: "AllowElements", Names: []string{"iframe", "form", "input", "button", "textarea", "meta", "base", "svg", "math", "font", "custom-x", "x-foo"}},
+			{M: "AllowStyles", Props: []string{"color", "background", "width", "font-size", "text-align", "font-family"}, Scope: "glob"}, {M: "AllowComments"}, {M: "AllowDataAttributes"}}
+		for i := range perm {
+			perm[i].norm()
+		}
+		permissive := BuildReal(perm)
 		recipe := GenRecipe(rng, GenOpts{NoUnsafe: *noUnsafe, NoStyles: *noStyles})
 		if fl := splitProps(*fixed); len(fl) > 0 {
 			// a decoy first: some other policy derived from a shipped constructor is built, extended and used
@@ -74,16 +82,6 @@ func cmdRecord(args []string) int {
 				decoy[i].norm()
 			}
 			BuildReal(decoy).Sanitize(`<p style="color: red" onclick="x">d<script>1</script></p>`)
-			// and a permissive policy that sees every input of the session just before the policy under test does: whatever
-			// the library remembers across policies (a cache keyed by value, say) is primed with the permissive verdict
-			perm := Recipe{{M: "UGCPolicy"}, {M: "AllowURLSchemesMatching", Pat: "^.*$"}, {M: "AllowRelativeURLs", B: true}, {M: "AllowDataURIImages"},
-				{M: "AllowAttrs", Attrs: []string{"href", "src", "cite", "style", "onclick", "id", "class", "rel", "target"}, Scope: "glob"},
-				{M: "AllowElements", Names: []string{"iframe", "form", "input", "button", "textarea", "meta", "base", "svg", "math"}},
-				{M: "AllowStyles", Props: []string{"color", "background", "width"}, Scope: "glob"}, {M: "AllowComments"}}
-			for i := range perm {
-				perm[i].norm()
-			}
-			permissive = BuildReal(perm)
 			m := map[string]string{"ugc": "UGCPolicy", "strict": "StrictPolicy", "new": "NewPolicy"}[fl[s%len(fl)]]
 			c := Call{M: m}
 			c.norm()
